@@ -282,7 +282,7 @@ Proof.
   - intros h b kids IH (OKb & SF & _ & AK) st. rewrite asm_sec.
     eapply okres_bind; [apply asm_elems_ok; assumption|]. intros [kids' st1] _.
     eapply okres_weaken; [apply sec_asm_ok|].
-    + destruct SF as (_ & _ & _ & _ & _ & G & _). intros T E. rewrite E in G. contradiction.
+    + destruct SF as (_ & _ & _ & _ & _ & _ & _ & G & _). intros T E. rewrite E in G. contradiction.
     + intros r (h' & b' & k' & E). rewrite E. exact I.
   - intros h b kids IH (OKb & FF & _ & AK) st. rewrite asm_file.
     eapply okres_bind; [apply asm_elems_ok; assumption|]. intros [kids' st1] _.
